@@ -42,7 +42,7 @@ WS_EXOTIC = ['\x0c', '\x0b', '\r\n', '\x1f', '\x1c ', '\n']  # str.isspace / reg
 
 # texts that pandas.read_csv re-types (numbers, missing-value markers, booleans)
 TYPED_TEXT = ['007', '12', '0', '-5', '1e3', '3.5', 'NA', 'nan', 'null', 'None', 'True', 'false', 'N/A', 'inf']
-_NUMERIC = re.compile(r'[+-]?(\d+\.?\d*|\.\d+)([eE][+-]?\d+)?$|[+-]?inf$', re.I)
+_NUMERIC = re.compile(r'[ \t]*[+-]?((\d+\.?\d*|\.\d+)([eE][+-]?\d+)?|inf|infinity)[ \t]*$', re.I)
 _NA = {'', '#N/A', '#N/A N/A', '#NA', '-1.#IND', '-1.#QNAN', '-NaN', '-nan', '1.#IND', '1.#QNAN', '<NA>', 'N/A', 'NA',
        'NULL', 'NaN', 'None', 'n/a', 'nan', 'null'}
 _BOOL = {'true', 'false'}
@@ -50,6 +50,19 @@ _BOOL = {'true', 'false'}
 
 def looks_typed(text: str) -> bool:
     return bool(_NUMERIC.match(text)) or text in _NA or text.lower() in _BOOL
+
+
+def _texts(m):
+    """answers of the model driver: (%%codes%% n ...) is a text with control characters"""
+    if isinstance(m, list):
+        if m and m[0] == '%%codes%%':
+            return ''.join(chr(int(c)) for c in m[1:])
+        return [_texts(x) for x in m]
+    return m
+
+
+def _loads(ans: str):
+    return _texts(sexp.loads(ans))
 
 
 def _canon_enc(kind: str, options: typing.Mapping[str, str]):
@@ -132,42 +145,221 @@ def spec_match(pk: str, po: dict, ck: str, co: dict) -> bool:
     return spec_wild(pk, ck) and all(k in co and co[k] == v for k, v in po.items())
 
 
+# ---- concrete syntax of a header (mirror of lean/ForML/Model/CodecHeader.lean RangeSpec / ParamSpec) -------------
+# range = {'w0', 'kind', 'params', 'wEnd'}; param = ('kv', pre, w1, name, w2, w3, value, quoted) | ('flag', pre, w1, text)
+PY_WS = ' \t\n\r\x0b\x0c\x1c\x1d\x1e\x1f'  # ASCII members of str.isspace
+
+
+def spec_escape(value: str) -> str:
+    return value.replace('\\', '\\\\').replace('"', '\\"')
+
+
+def spec_value_text(value: str, quoted: bool) -> str:
+    return '"' + spec_escape(value) + '"' if quoted else value
+
+
+def spec_render_range(r) -> str:
+    out = r['w0'] + r['kind']
+    for p in r['params']:
+        if p[0] == 'kv':
+            _, pre, w1, name, w2, w3, value, quoted = p
+            vt = spec_value_text(value, quoted)
+            out += pre + ';' + w1 + name + w2 + '=' + (w3 + vt if vt else '')
+        else:
+            _, pre, w1, text = p
+            out += pre + ';' + (w1 + text if text else '')
+    return out + r['wEnd']
+
+
+def spec_render(specs) -> str:
+    return ','.join(spec_render_range(r) for r in specs)
+
+
+def q_value(text: str):
+    """the number a q text spells, as a Fraction — own reading of the grammar ws* [+-]? DIGIT* [. DIGIT{0,3}] ws*
+    (at least one digit); None for anything else"""
+    t = text.strip(PY_WS)
+    sign = 1
+    if t[:1] in ('+', '-'):
+        sign = -1 if t[0] == '-' else 1
+        t = t[1:]
+    ip, dot, fp = t.partition('.')
+    if not (ip + fp) or not (ip + fp).isascii() or not (ip + fp).isdigit() or len(fp) > 3 or '.' in fp:
+        return None
+    return sign * (F(int(ip or '0')) + (F(int(fp), 10 ** len(fp)) if fp else 0))
+
+
+def spec_meaning(r):
+    """(kind as written, [(name, value)] with dict semantics incl. q, quality or None when q is not a number)"""
+    opts: dict = {}
+    for p in r['params']:
+        if p[0] == 'kv':
+            opts[p[3].lower()] = p[6]
+    q = q_value(opts['q']) if 'q' in opts else F(1)
+    return r['kind'], list(opts.items()), q
+
+
+def spec_sexp(specs):
+    return [[r['w0'], r['kind'], [list(p) for p in r['params']], r['wEnd']] for r in specs]
+
+
+def spec_in_property(specs) -> bool:
+    """the grammar the property quantifies over: 1.. media ranges, blank/tab as optional white space, `name=value` options with
+    distinct names (token or quoted-string values without comma), q a number — no parameter without '=', no repetition"""
+    for r in specs:
+        if any(c not in ' \t' for c in r['w0'] + r['wEnd']) or not r['kind'] or any(c in PY_WS + ',;"=' for c in r['kind']):
+            return False
+        names = []
+        for p in r['params']:
+            if p[0] != 'kv':
+                return False
+            _, pre, w1, name, w2, w3, value, quoted = p
+            if any(c not in ' \t' for c in pre + w1 + w2 + w3) or not name or any(c in PY_WS + ',;"=\\' for c in name):
+                return False
+            if quoted:
+                if ',' in value or value.endswith('\\'):
+                    return False
+            elif any(c in PY_WS + ',;"' for c in value):
+                return False
+            names.append(name.lower())
+        if len(set(names)) != len(names):
+            return False
+        if spec_meaning(r)[2] is None:
+            return False
+    return bool(specs)
+
+
+def recognise(text: str):
+    """Own scanner of the header grammar: the list of range specs whose rendering is exactly `text`, or None when the text is not
+    of the grammar (a comma inside a quoted-string, a parameter without '=', stray separators or quotes, ...).  Independent of
+    forml, of cgi and of the Lean model."""
+    specs = []
+    for it in text.split(','):
+        n = len(it)
+
+        def ws(i):
+            while i < n and it[i] in ' \t':
+                i += 1
+            return i
+        j = ws(0)
+        w0 = it[:j]
+        k = j
+        while k < n and it[k] not in ' \t;':
+            if it[k] in '"=':
+                return None
+            k += 1
+        kind = it[j:k]
+        if not kind:
+            return None
+        params = []
+        pos = k
+        while True:
+            j = ws(pos)
+            pre = it[pos:j]
+            if j == n:
+                w_end = pre
+                break
+            if it[j] != ';':
+                return None
+            a = ws(j + 1)
+            w1 = it[j + 1:a]
+            b = a
+            while b < n and it[b] not in ' \t;="':
+                b += 1
+            name = it[a:b]
+            if not name:
+                return None
+            c = ws(b)
+            w2 = it[b:c]
+            if c == n or it[c] != '=':
+                return None
+            c += 1
+            d = ws(c)
+            w3 = it[c:d]
+            if d < n and it[d] == '"':
+                e, val = d + 1, []
+                while True:
+                    if e >= n:
+                        return None
+                    ch = it[e]
+                    if ch == '"':
+                        break
+                    if ch == '\\':
+                        if e + 1 < n and it[e + 1] in '\\"':
+                            val.append(it[e + 1])
+                            e += 2
+                            continue
+                        return None
+                    val.append(ch)
+                    e += 1
+                value, quoted, end = ''.join(val), True, e + 1
+            else:
+                e = d
+                while e < n and it[e] not in ' \t;"':
+                    e += 1
+                value, quoted, end = it[d:e], False, e
+                if not value:
+                    w3, end = '', c
+            params.append(('kv', pre, w1, name, w2, w3, value, quoted))
+            pos = end
+        specs.append({'w0': w0, 'kind': kind, 'params': params, 'wEnd': w_end})
+    if spec_render(specs) != text or not spec_in_property(specs):
+        return None
+    return specs
+
+
 class C19(fw.Check):
     ID = 'C19'
-    LEAN_MODULES = ['ForML.Props.C19']
+    LEAN_MODULES = ['ForML.Props.C19', 'ForML.Props.C19Header', 'ForML.Props.C19Table']
     DRIVER = 'drv_c19'
     RULE = ('Headers: 1..5 (sometimes 6 or 8) media ranges from pools of 11 concrete kinds and 24 wildcard patterns (*, ?, [..], '
             '[!..], ranges, unterminated [), random upper-casing of kinds and option names, 0..3 options with distinct names '
             '(token or quoted-string values incl. blanks, ;, =, escaped quotes and backslashes, empty), q from a 35-value pool built '
             'for ties (missing, 0, 1., .5, 0.50, 0.500, Q=, quoted, signed and > 1 values), random blanks/tabs around , ; =.  A '
-            'header case is distinct by its text and non-trivial when it has >= 2 ranges.  Each header is also used as Accept '
-            '(get_encoder(*parse(h))) and as Content-Type (get_decoder(parse(h)[0])).  A separate stream outside the grammar '
-            '(q not a number / empty / repeated, empty items, parameters without =, stray ; and quotes, commas inside quoted '
-            'strings, Python-only white space) is compared with the model and reported as a fidelity note only.  Pairs: every '
-            '(pattern, other) pair of a pool of >= 40 encodings (oracle on the concrete others); random glob strings over '
-            '{a,b,c,/,-,*,?,[,],!} against fnmatch.  Encoders: 1..4 pool encodings; decoders: every pool encoding.  REST: the '
-            'gateway route driven through starlette with generated Content-Type and Accept headers (status 415 vs chosen '
-            'response encoding).  Round trip: tables of 1..4 columns x 1..5 rows of ints, texts (blanks, commas, quotes) and '
-            'floats of <= 10 decimal places for text/csv, pandas-records -> application/json, pandas-columns -> '
-            'application/json (the format=pandas-* decoders are attempted and counted as unusable when pandas.read_json refuses a '
-            'literal string); plus typed-looking text cells (C19-F1) and floats of 11..14 decimal places (C19-F2).  Oracle on '
-            'the real code: order = sort by (-q, position) of the generated ranges; match = own wildcard matcher + option '
-            'subset; encoder = any encoding accepted by the first client pattern that accepts a supported one, error iff none; '
-            'decoder = its pattern accepts the content type, error iff none; decoded table == table (numbers by value).')
+            'header case is distinct by its text and non-trivial when it has >= 2 ranges.  The same grammar is also generated as '
+            'concrete-syntax trees (the RangeSpec / QSpec objects of the Lean theorems: every piece of white space, the case of every '
+            'name, token vs quoted-string per value, every quality as a spelling with sign / leading zeros / bare point / trailing '
+            'zeros); Lean renderHeader must write the generator\'s text, find the tree well-formed and mean the generator\'s ranges.  '
+            'Byte-level mutated headers (insert / delete / duplicate , ; = " \\ blank tab, case flips, swaps, deletions; 1..3 per header): '
+            'an own scanner of the grammar decides which are still headers of the property (treated like any header, oracle included) '
+            'and which are not.  Each header is also used as Accept (get_encoder(*parse(h))) and as Content-Type '
+            '(get_decoder(parse(h)[0])).  Outside the grammar (q not a number / empty / repeated, empty items, parameters without =, '
+            'stray ; and quotes, commas or a trailing backslash inside quoted strings, Python-only white space, the unrecognised mutants): '
+            'compared with the model and reported as a fidelity note only.  Pairs: every (pattern, other) pair of a pool of >= 40 '
+            'encodings (oracle on the concrete others); random glob strings over {a,b,c,/,-,*,?,[,],!} against fnmatch.  Encoders: 1..4 '
+            'pool encodings; decoders: every pool encoding.  REST: the gateway route driven through starlette with generated '
+            'Content-Type and Accept headers (status 415 vs chosen response encoding, and the Lean gateway model); absent / empty / '
+            'unparsable headers against the model as a fidelity note.  Round trip: tables of 1..4 columns x 1..5 rows of ints, texts '
+            '(blanks, commas, quotes) and floats of <= 10 decimal places for text/csv, pandas-records -> application/json, '
+            'pandas-columns -> application/json (the format=pandas-* decoders are attempted and counted as unusable when '
+            'pandas.read_json refuses a literal string); typed tables (int / float / text / bool columns with missing cells, empty, '
+            'numeric-, marker- and boolean-looking texts, blanks-only cells, carriage returns, quotes / commas / line feeds in cells '
+            'and names, columns called instances / inputs, floats of 11..14 decimals, no rows) against the verdict and the text/csv '
+            'text of the Lean table model; sequences of 2..6 payloads decoded by one process (equal column types under different '
+            'names, permuted columns, empty frames before / after their columns are cached, object columns with None) against the '
+            'Lean schema-cache machine; the read_csv tokeniser and type inference of the model against pandas.  Oracle on the real '
+            'code: order = sort by (-q, position) of the generated ranges; match = own wildcard matcher + option subset; encoder = any '
+            'encoding accepted by the first client pattern that accepts a supported one, error iff none; decoder = its pattern accepts '
+            'the content type, error iff none; decoded table == table (numbers by value, missing = missing); fields of a decoded '
+            'entry == columns of its payload.')
     TRUSTED = [
         'cgi.parse_header, fnmatch.translate, float(): the slices reachable from the generated grammar are modelled and '
         'correspondence-checked; beyond it (q with exponent/inf/nan/_/>3 decimals, non-ASCII blanks or case, bracket '
         'bodies where a dropped range is followed by "!") modelled-not-verified; headers outside the RFC grammar are compared '
         'with the model as a fidelity note, not as a verdict',
-        'pandas JSON/CSV writers and readers: sampled by the round trip only; the Lean round trip theorems cover the '
-        'unquoted text/csv token slice, single typed cells and the ten-place rounding of float cells',
+        'pandas: csv.writer quoting, the read_csv tokeniser and type inference are modelled (Model/CodecTable.lean) and compared with pandas on '
+        'every run; to_json / json.loads string escaping, repr() of floats outside the positional range, the schema kinds inferred by '
+        'Schema.from_frame are below the model (sampled by the round trip only); hash collisions of the schema cache key are ignored',
         'CPython sorted() stability (the model is a stable insertion sort; tie order is compared on every header)',
         'starlette test client (the REST route is driven in-process, no socket)',
+        'the own header scanner (`recognise`) that decides which mutated headers are still of the property grammar',
     ]
     ASSUMPTIONS = ['header text is ASCII; q has at most three decimals (RFC 9110 grammar), sign and values > 1 included',
-                   'round trip tables: at least one row (the decoder refuses an empty frame by design), distinct column names, '
-                   'int cells, text cells, float cells that are decimal numbers of at most 15 significant digits (full 17-digit '
-                   'doubles are not compared: pandas.read_csv\'s default converter is 1 ulp off on about a quarter of them)',
+                   'round trip tables: typed by column, distinct non-empty column names (dsl.Schema refuses others), every column with at least one '
+                   'cell that is not missing (dsl cannot type an all-None column), int cells of at most 15 digits, finite float cells that are '
+                   'decimal numbers of at most 15 significant digits (full 17-digit doubles are not compared: pandas.read_csv\'s default '
+                   'converter is 1 ulp off on about a quarter of them); a table without rows is refused by the decoder by design '
+                   '(Schema.from_frame: "Empty frame") unless the schema cache knows its columns - either is accepted',
                    'the format=pandas-* JSON decoders cannot run under the installed pandas 3 (read_json takes a literal as a path): '
                    'their negotiation is checked, their decoding is not']
 
@@ -272,6 +464,164 @@ class C19(fw.Check):
             text += self._ws(exotic) + ',' + self._ws(exotic) + it[0]
         return text, [(k, o, q) for _, k, o, q in items]
 
+    # ---- concrete-syntax generator (specs of lean/ForML/Model/CodecHeader.lean) -------------------------------------
+    def _pad(self, exotic: bool = False, p_empty: float = 0.55) -> str:
+        rng = self.rng
+        if rng.random() < p_empty:
+            return ''
+        alphabet = ' ' * 6 + '\t' * 2 + ('\x0c\x0b\r\n\x1c\x1f' if exotic else '')
+        return ''.join(rng.choice(alphabet) for _ in range(rng.choice([1, 1, 1, 2, 3])))
+
+    def _q_spelling(self, thousandths: typing.Optional[int] = None):
+        """a spelling (w1, sign, int digits, frac digits or None, w2) of a quality in thousandths (a random one in 0..1, sometimes up
+        to 2 or negative, when not given): optional sign, leading zeros, no integer part, bare point, trailing zeros"""
+        rng = self.rng
+        if thousandths is None:
+            thousandths = rng.choice([0, 1, 100, 250, 300, 500, 500, 501, 750, 800, 900, 999, 1000, 1000, rng.randint(0, 1000),
+                                      rng.randint(0, 2000), -rng.randint(0, 1000)])
+        neg = thousandths < 0 or (thousandths == 0 and rng.random() < 0.1)
+        ip, fp = divmod(abs(thousandths), 1000)
+        frac = f'{fp:03d}'.rstrip('0')
+        frac += '0' * rng.randint(0, 3 - len(frac)) if rng.random() < 0.4 else ''
+        r = rng.random()
+        if frac:
+            fr = frac
+        else:
+            fr = None if r < 0.5 else rng.choice(['', '0', '00', '000'])
+        if ip == 0 and fr:
+            i = rng.choice(['', '0', '0', '0', '00'])
+        else:
+            i = ('0' if rng.random() < 0.1 else '') + str(ip)
+        sign = 'minus' if neg else ('plus' if rng.random() < 0.08 else 'none')
+        return {'w1': '', 'sign': sign, 'int': i, 'frac': fr, 'w2': '', 'value': -abs(thousandths) if neg else thousandths}
+
+    @staticmethod
+    def _q_text(qs) -> str:
+        return (qs['w1'] + {'none': '', 'plus': '+', 'minus': '-'}[qs['sign']] + qs['int']
+                + ('' if qs['frac'] is None else '.' + qs['frac']) + qs['w2'])
+
+    def _gen_range(self, tie_values, kinds=None, exotic: bool = False):
+        """one media range as a spec; `exotic` adds what the property does not speak about (parameters without '=', repeated
+        names, stray ';', Python-only white space, a q that is not a number)"""
+        rng = self.rng
+        kind = self._case_kind(rng.choice(kinds) if kinds else rng.choice(CONCRETE_KINDS if rng.random() < 0.6 else PATTERN_KINDS))
+        params = []
+        nopt = rng.choice([0, 0, 0, 1, 1, 2, 3])
+        keys = [rng.choice(OPT_KEYS) for _ in range(nopt)] if exotic else rng.sample(OPT_KEYS, nopt)
+        for k in keys:
+            v = rng.choice(OPT_VALUES[k])
+            if exotic and rng.random() < 0.1:  # what the comma split and the quote parity of cgi cannot read
+                v = rng.choice(['x,y', 'x , y', 'tail\\', 'a,b/c;q=0.9', ','])
+            name = k if rng.random() < 0.75 else (k.upper() if rng.random() < 0.5 else k.capitalize())
+            quoted = any(c in v for c in ' ;",') or v.endswith('\\') or (v == '' and rng.random() < 0.5) or rng.random() < 0.2
+            if not quoted and (',' in v or v.endswith('\\')):
+                continue
+            if quoted and (',' in v or v.endswith('\\')) and not exotic:
+                continue
+            w3 = self._pad(exotic) if spec_value_text(v, quoted) else ''
+            params.append(('kv', self._pad(exotic), self._pad(exotic), name, self._pad(exotic, 0.8), w3, v, quoted))
+        if rng.random() < 0.7:
+            if exotic and rng.random() < 0.15:
+                qtext = rng.choice(BAD_Q)
+            else:
+                qs = self._q_spelling(rng.choice(tie_values) if rng.random() < 0.6 else None)
+                self._qspecs.append(qs)
+                qtext = self._q_text(qs)
+            quoted = rng.random() < 0.1
+            if quoted and qtext and rng.random() < 0.5:
+                qtext += ' '
+            if not quoted and any(c in qtext for c in PY_WS + ',;"'):
+                quoted = True
+            w3 = self._pad(exotic) if spec_value_text(qtext, quoted) else ''
+            params.insert(rng.randint(0, len(params)),
+                          ('kv', self._pad(exotic), self._pad(exotic), 'q' if rng.random() < 0.85 else 'Q', self._pad(exotic, 0.8), w3, qtext, quoted))
+        if exotic:
+            for _ in range(rng.choice([0, 1, 1, 2])):
+                text = rng.choice(['', '', 'flag', 'x', 'Q', 'q'])
+                params.insert(rng.randint(0, len(params)), ('flag', self._pad(exotic), self._pad(exotic) if text else '', text))
+        return {'w0': self._pad(exotic), 'kind': kind, 'params': params, 'wEnd': self._pad(exotic)}
+
+    def _gen_specs(self, kinds=None, exotic: bool = False, sizes=(1, 2, 2, 3, 3, 3, 4, 4, 5, 5, 6, 8)):
+        rng = self.rng
+        ties = [rng.choice([0, 100, 300, 500, 500, 800, 1000, 1000]), rng.randint(0, 1000)]
+        return [self._gen_range(ties, kinds, exotic) for _ in range(rng.choice(sizes))]
+
+    @staticmethod
+    def _specs_sem(specs):
+        """[(kind as the constructor normalises it, options without q, quality)] of in-property specs"""
+        out = []
+        for r in specs:
+            kind, opts, q = spec_meaning(r)
+            out.append((kind.strip().lower(), {k: v for k, v in opts if k != 'q'}, q))
+        return out
+
+    def _check_render(self, batches):
+        """the Lean renderer writes the same text as this generator, finds the specs well-formed (the hypothesis of
+        C19_parse_render) and means the same ranges: a disagreement is a defect of the machinery, not of forml"""
+        answers = self.model([sexp.dumps(['render', spec_sexp(specs)]) for specs in batches])
+        for specs, ans in zip(batches, answers):
+            m = _loads(ans)
+            text = spec_render(specs)
+            if not isinstance(m, list) or ''.join(chr(int(c)) for c in m[2]) != text:
+                raise fw.MachineryError(f'Lean renderHeader and the generator disagree on {specs!r}: {m!r} vs {text!r}')
+            meanings = [spec_meaning(r) for r in specs]
+            if any(q is None for _, _, q in meanings):
+                want = ['error', 'badQ']
+            else:
+                want = ['ok', [[k, [[a, b] for a, b in o], str(int(q * 1000))] for k, o, q in meanings]]
+            if spec_in_property(specs) and m[0] != 'true':
+                raise fw.MachineryError(f'a header of the property grammar is not well-formed for the Lean theorem: {text!r}')
+            if m[1] == 'true' and m[3] != want:
+                raise fw.MachineryError(f'Lean specRanges and the generator disagree on the meaning of {text!r}: {m[3]!r} vs {want!r}')
+
+    def _check_qspecs(self):
+        qs = self._qspecs[:self.n(2000, 15000)]
+        answers = self.model([sexp.dumps(['qspell', q['w1'], q['sign'], q['int'], 'none' if q['frac'] is None else ['some', q['frac']], q['w2']])
+                              for q in qs])
+        for q, ans in zip(qs, answers):
+            m = _loads(ans)
+            text = self._q_text(q)
+            self.case(('qspell', text), 'q spelling', nontrivial=True)
+            if m[0] != 'true' or ''.join(chr(int(c)) for c in m[1]) != text or int(m[2]) != q['value'] or q_value(text) != F(q['value'], 1000):
+                raise fw.MachineryError(f'Lean QSpec and the generator disagree on the spelling {text!r} of {q["value"]}/1000: {m!r}')
+            try:
+                got = float(text)
+            except ValueError:
+                got = None
+            if got is None or F(got).limit_denominator(10 ** 6) != F(q['value'], 1000):
+                self.diverge('float(q)', {'q': text}, got, q['value'])
+
+    MUTATION_CHARS = ',;="\\ \t'
+
+    def _mutate(self, text: str) -> str:
+        """byte-level damage: insert / delete / duplicate a separator, quote, backslash or blank, flip the case of a letter,
+        swap neighbours"""
+        rng = self.rng
+        for _ in range(rng.choice([1, 1, 2, 3])):
+            op = rng.randrange(6)
+            pos = rng.randrange(len(text) + 1)
+            special = [i for i, c in enumerate(text) if c in self.MUTATION_CHARS]
+            if op == 0:
+                text = text[:pos] + rng.choice(self.MUTATION_CHARS) + text[pos:]
+            elif op == 1 and special:
+                i = rng.choice(special)
+                text = text[:i] + text[i + 1:]
+            elif op == 2 and special:
+                i = rng.choice(special)
+                text = text[:i] + text[i] + text[i:]
+            elif op == 3:
+                letters = [i for i, c in enumerate(text) if c.isalpha()]
+                if letters:
+                    i = rng.choice(letters)
+                    text = text[:i] + text[i].swapcase() + text[i + 1:]
+            elif op == 4 and len(text) > 1:
+                i = rng.randrange(len(text) - 1)
+                text = text[:i] + text[i + 1] + text[i] + text[i + 2:]
+            elif text:
+                i = rng.randrange(len(text))
+                text = text[:i] + text[i + 1:]
+        return text
+
     def _malformed(self) -> str:
         rng = self.rng
         style = rng.randrange(7)
@@ -339,7 +689,7 @@ class C19(fw.Check):
 
     @staticmethod
     def _model_idx(ans: str):
-        m = sexp.loads(ans)
+        m = _loads(ans)
         if m == 'none':
             return None
         if isinstance(m, list) and m[0] == 'some':
@@ -349,12 +699,18 @@ class C19(fw.Check):
     def _outside(self, what, case, impl, model):
         """model and code differ on an input the property does not speak about (a header outside its grammar, a
         non-concrete encoding where a concrete one is expected): recorded in the evidence, not a verdict"""
-        self._outside_list.append({'what': what, 'case': case, 'impl': impl, 'model': model})
+        declared = None
+        text = ' '.join(str(v) for v in case.values()) if isinstance(case, dict) else str(case)
+        if re.search(r'(?i)q["\s]*=["\s]*[+-]?(\d*\.\d{4,}|[\d.]*\d[\d._]*e[+-]?\d|\d[\d_]*_[\d_.]*|inf|nan)', text):
+            declared = 'q spelling beyond the model (more than three decimals, exponent, inf, nan, _)'
+        self._outside_list.append({'what': what, 'case': case, 'impl': impl, 'model': model, 'declared': declared})
 
     def _outside_report(self):
         self.extra['outside_property_mismatches'] = len(self._outside_list)
+        undeclared = [o for o in self._outside_list if not o['declared']]
+        self.extra['outside_property_mismatches_undeclared'] = len(undeclared)
         if self._outside_list:
-            self.extra['outside_property_samples'] = self._outside_list[:3]
+            self.extra['outside_property_samples'] = (undeclared + self._outside_list)[:6]
             self.notes.append(f'{len(self._outside_list)} inputs outside the property (malformed headers, non-concrete content types) are '
                               f'handled differently by model and code (first: {self._outside_list[0]}) - model fidelity note, not a verdict')
 
@@ -412,17 +768,43 @@ class C19(fw.Check):
             ('a;q=-1, b;q=2, c;q=+0.5, d;q=-0.0, e;q=0', [('a', {}, F(-1)), ('b', {}, F(2)), ('c', {}, F(1, 2)), ('d', {}, F(0)), ('e', {}, F(0))]),
             ('text/csv; a="say \\"hi\\""; q="0.5", */*;q=0.5', [('text/csv', {'a': 'say "hi"'}, F(1, 2)), ('*/*', {}, F(1, 2))]),
         ]
-        cases = list(corpus)
-        for _ in range(self.n(8000, 100000)):
-            cases.append(self._header_spec())
-        answers = self.model([sexp.dumps(['parse', h]) for h, _ in cases] + [sexp.dumps(['accept', h]) for h, _ in cases]
-                             + [sexp.dumps(['content', h]) for h, _ in cases])
+        cases = [(h, sp, 'corpus') for h, sp in corpus]
+        for _ in range(self.n(5000, 60000)):
+            cases.append(self._header_spec() + ('text',))
+        # the same grammar generated as concrete syntax trees (every piece of white space, the case of every name, token or
+        # quoted-string per value, every quality as a spelling): the objects C19_parse_render quantifies over
+        self._qspecs = []
+        batches = []
+        for _ in range(self.n(3000, 30000)):
+            specs = self._gen_specs()
+            if not spec_in_property(specs):
+                raise fw.MachineryError(f'generator left the property grammar: {specs!r}')
+            batches.append(specs)
+            cases.append((spec_render(specs), self._specs_sem(specs), 'syntax'))
+        # byte-level damage of such headers; what is still of the grammar (own scanner) is treated like any header, the rest
+        # goes to the outside-the-grammar stream
+        self._mutated_out = []
+        nin = 0
+        for _ in range(self.n(5000, 40000)):
+            text = self._mutate(spec_render(self.rng.choice(batches[:self.n(3000, 30000)])))
+            specs = recognise(text)
+            if specs is None:
+                self._mutated_out.append(text)
+            else:
+                nin += 1
+                batches.append(specs)
+                cases.append((text, self._specs_sem(specs), 'mutated'))
+        self.extra['mutated_headers'] = {'still_in_grammar': nin, 'outside': len(self._mutated_out)}
+        self._check_render(batches)
+        self._check_qspecs()
+        answers = self.model([sexp.dumps(['parse', h]) for h, _, _ in cases] + [sexp.dumps(['accept', h]) for h, _, _ in cases]
+                             + [sexp.dumps(['content', h]) for h, _, _ in cases])
         n = len(cases)
-        for i, (header, spec) in enumerate(cases):
+        for i, (header, spec, origin) in enumerate(cases):
             impl = self._impl_parse(header)
-            m = sexp.loads(answers[i])
+            m = _loads(answers[i])
             qs = [q for _, _, q in spec]
-            shape = f'header n={len(spec)} ' + ('ties' if len(set(qs)) < len(qs) else 'distinct-q')
+            shape = f'header {origin} n={len(spec)} ' + ('ties' if len(set(qs)) < len(qs) else 'distinct-q')
             self.case(('h', header), shape, nontrivial=len(spec) >= 2,
                       sample={'header': header, 'parsed': [k for k, _ in impl[1]] if impl[0] == 'ok' else impl})
             ci = ['ok', [_canon_enc(k, o) for k, o in impl[1]]] if impl[0] == 'ok' else list(impl)
@@ -463,10 +845,16 @@ class C19(fw.Check):
         cases = ['', ',', 'a,,b', 'a;q=abc', 'a;q=', 'a;=x', 'a;b', 'a;b=1;b=2;c=3', ';', 'a;q="0.5', 'a;x="1;q=0";q=0.5,b;q=0.7',
                  'a;q=1;q=0.2, b;q=0.3', 'a;x="1,2";q=0.1, b', 'a\x0c;\x1fq=0.5\x1c,\nb']
         cases += [self._malformed() for _ in range(self.n(1500, 20000))]
+        # concrete syntax with what the property does not speak about (parameters without '=', repeated names, stray ';', Python-only
+        # white space, q not a number, commas / trailing backslash in quoted strings): the Lean renderer is tied as above
+        exotic = [self._gen_specs(exotic=True) for _ in range(self.n(1500, 20000))]
+        self._check_render(exotic)
+        cases += [spec_render(specs) for specs in exotic]
+        cases += self._mutated_out
         answers = self.model([sexp.dumps(['parse', h]) for h in cases])
         for header, ans in zip(cases, answers):
             impl = self._impl_parse(header)
-            m = sexp.loads(ans)
+            m = _loads(ans)
             self.case(('m', header), 'outside grammar -> ' + (impl[0] if impl[0] == 'ok' else str(impl[1])), nontrivial=True)
             ci = ['ok', [_canon_enc(k, o) for k, o in impl[1]]] if impl[0] == 'ok' else list(impl)
             cm = ['ok', [_canon_enc(k, dict(map(tuple, o))) for k, o in m[1]]] if m[0] == 'ok' else m
@@ -616,9 +1004,13 @@ class C19(fw.Check):
 
     @staticmethod
     def _same_cell(g, w, kd) -> bool:
-        """the decoded cell is the cell that was encoded (numbers by value, text by text)"""
+        """the decoded cell is the cell that was encoded (numbers by value, text by text, a missing cell is missing)"""
+        if w is None:
+            return isinstance(g, float) and g != g
         if kd == 'str':
             return isinstance(g, str) and g == w
+        if kd == 'bool':
+            return isinstance(g, bool) and g == w
         if isinstance(g, (bool, str)):
             return False
         return isinstance(g, (int, float)) and g == w  # a row of numbers only is handed out as one float array: by value
@@ -638,9 +1030,11 @@ class C19(fw.Check):
 
     @staticmethod
     def _is_rounded(g, w) -> bool:
-        """g is the float w rounded to ten decimal places (and not w itself)"""
-        return (isinstance(g, (int, float)) and not isinstance(g, bool) and float(g) != w
-                and abs(float(g) - w) <= 0.5000001e-10 and float(g) == float(f'{float(g):.10f}'))
+        """g is the float w rounded to ten decimal places (and not w itself); exact arithmetic on the shortest decimal spellings"""
+        if not isinstance(g, (int, float)) or isinstance(g, bool) or g != g or w != w or abs(g) == float('inf') or abs(w) == float('inf'):
+            return False
+        dg, dw = F(repr(float(g))), F(repr(float(w)))
+        return dg != dw and abs(dg - dw) <= F(1, 2 * 10 ** 10) and (dg * 10 ** 10).denominator == 1
 
     @staticmethod
     def _jsonable(v):
@@ -650,30 +1044,60 @@ class C19(fw.Check):
         """encode with ENCODERS[enc_idx], decode with get_decoder(dec_enc); returns (status, detail, encoded bytes)"""
         from forml.io import dsl, layout
         from forml.io.layout import _codec
-        kind_of = {'int': dsl.Integer, 'str': dsl.String, 'float': dsl.Float}
+        kind_of = {'int': dsl.Integer, 'str': dsl.String, 'float': dsl.Float, 'bool': dsl.Boolean}
         schema = dsl.Schema.from_fields(*(dsl.Field(kind_of[kd](), name=nm) for nm, kd in zip(names, kinds)))
         encoder = _codec.ENCODERS[enc_idx]
-        data = encoder.dumps(layout.Outcome(schema, [list(r) for r in rows]))
+        try:
+            data = encoder.dumps(layout.Outcome(schema, [list(r) for r in rows]))
+        except Exception as err:  # pylint: disable=broad-except
+            return 'differs', {'error': f'encoder raised {type(err).__name__}: {err}'[:200], 'cause': None}, b''
         try:
             decoder = layout.get_decoder(layout.Encoding(dec_enc[0], **dec_enc[1]))
             entry = decoder.loads(data)
         except FileNotFoundError:
             return 'unusable', 'pandas.read_json treats the literal as a path', data
         except Exception as err:  # pylint: disable=broad-except
-            return 'differs', {'error': f'{type(err).__name__}: {err}'[:200], 'cause': None}, data
+            cause = None
+            if not rows and type(err).__name__ == 'MissingError' and 'Empty frame' in str(err):
+                return 'refused', {'error': 'MissingError: Empty frame'}, data  # by design (ASSUMPTIONS): a frame without rows
+            if (encoder.encoding.options.get('format') == 'pandas-columns' and not dec_enc[1] and any(n in ('instances', 'inputs') for n in names)
+                    and isinstance(err, ValueError)):
+                cause = 'json-columns-sniffed'
+            elif encoder.encoding.kind == 'text/csv' and self._csv_cr_unquoted(names, rows):
+                cause = 'csv-cr-unquoted'
+            elif (encoder.encoding.kind == 'text/csv' and len(names) == 1 and rows and type(err).__name__ == 'MissingError' and 'Empty frame' in str(err)
+                  and all(isinstance(r[0], str) and r[0] and not r[0].strip(' \t') for r in rows)):
+                cause = 'csv-blank-line'  # every row is a line of blanks: nothing is left
+            elif (encoder.encoding.kind == 'application/json' and isinstance(err, ValueError) and 'Value None is of unknown ETL type' in str(err)
+                  and any(kd == 'bool' and any(r[j] is None for r in rows) for j, kd in enumerate(kinds))):
+                cause = 'json-null-object-column'  # booleans with a missing cell: an object column holding None
+            return 'differs', {'error': f'{type(err).__name__}: {err}'[:200], 'cause': cause}, data
         got_names = [f.name for f in entry.schema]
         got_rows = [[self._plain(v) for v in r] for r in entry.data.to_rows()]
         if (got_names == list(names) and len(got_rows) == len(rows) and all(len(gr) == len(wr) for gr, wr in zip(got_rows, rows))
                 and all(self._same_cell(g, w, kd) for gr, wr in zip(got_rows, rows) for g, w, kd in zip(gr, wr, kinds))):
             return 'same', None, data
         cause = None
-        if got_names == list(names) and len(got_rows) == len(rows) and all(len(gr) == len(wr) for gr, wr in zip(got_rows, rows)):
+        if encoder.encoding.kind == 'text/csv' and self._csv_cr_unquoted(names, rows):
+            cause = 'csv-cr-unquoted'  # a carriage return outside quotes is a record end for the reader: other rows / names / cells
+        elif got_names == list(names) and len(got_rows) == len(rows) and all(len(gr) == len(wr) for gr, wr in zip(got_rows, rows)):
             diff = [(g, w, kd) for gr, wr in zip(got_rows, rows) for g, w, kd in zip(gr, wr, kinds) if not self._same_cell(g, w, kd)]
-            if encoder.encoding.kind == 'text/csv' and all(kd == 'str' and looks_typed(w) and self._is_retyped_text(g, w) for g, w, kd in diff):
+            if encoder.encoding.kind == 'text/csv' and all(kd == 'str' and isinstance(w, str) and looks_typed(w) and self._is_retyped_text(g, w)
+                                                            for g, w, kd in diff):
                 cause = 'csv-text-retyped'
-            elif encoder.encoding.kind == 'application/json' and all(kd == 'float' and self._is_rounded(g, w) for g, w, kd in diff):
+            elif encoder.encoding.kind == 'application/json' and all(kd == 'float' and w is not None and self._is_rounded(g, w) for g, w, kd in diff):
                 cause = 'json-float-rounded'
+        elif (encoder.encoding.kind == 'text/csv' and len(names) == 1 and got_names == list(names)
+              and [r for r in rows if not (isinstance(r[0], str) and r[0] and not r[0].strip(' \t'))] != rows
+              and len(got_rows) == len([r for r in rows if not (isinstance(r[0], str) and r[0] and not r[0].strip(' \t'))])):
+            cause = 'csv-blank-line'  # one-column table: the cells of blanks only are missing, as lines of blanks are skipped
         return 'differs', {'columns': got_names, 'rows': [[self._jsonable(v) for v in r] for r in got_rows], 'cause': cause}, data
+
+    @staticmethod
+    def _csv_cr_unquoted(names, rows) -> bool:
+        """some field holds a carriage return and nothing that makes the writer quote it"""
+        fields = list(names) + [v for r in rows for v in r if isinstance(v, str)]
+        return any('\r' in f and not any(c in f for c in ',"\n') for f in fields)
 
     @staticmethod
     def _rt_signature(label: str, detail) -> str:
@@ -748,6 +1172,9 @@ class C19(fw.Check):
         if not any(usable.values()):
             raise fw.MachineryError('no codec pair is usable in this environment')
         self._json_precision()
+        self._typed_roundtrip(pairs, usable)
+        self._schema_cache()
+        self._pandas_fidelity()
         # the unquoted CSV slice against the Lean token model (text and cells)
         csv = next((i for i, (k, _) in enumerate(self._encs) if k == 'text/csv'), None)
         if csv is None:
@@ -756,11 +1183,269 @@ class C19(fw.Check):
         lines = [sexp.dumps(['csv', [list(n)] + [[str(v) for v in r] for r in rows]]) for n, _, rows in slices]
         for (names, kinds, rows), ans in zip(slices, self.model(lines)):
             _, _, data = self._roundtrip_once(names, kinds, rows, csv, ('text/csv', {}))
-            m = sexp.loads(ans)
+            m = _loads(ans)
             self.case(('csv', tuple(names), tuple(map(tuple, rows))), 'csv slice vs model', nontrivial=True)
             want_cells = [list(names)] + [[str(v) for v in r] for r in rows]
             if m[0] != data.decode() or m[1] != want_cells:
                 self.diverge('text/csv dumps on the unquoted slice', {'names': names, 'rows': rows}, data.decode(), m)
+
+    # ---- typed tables vs the table model (lean/ForML/Model/CodecTable.lean) ------------------------------------------
+    T_NAMES = ['A', 'B', 'col_1', 'x', 'Label', 'z9', 'x y', 'a,b', 'q"r', ' lead', 'NA', '1', '1.0', 'null', 'True']
+    T_TEXTS = ['a', 'b', 'xy', 'k w', 'p,q', 'say "hi"', 'two\nlines', "it's", '-', 'e3', '1e', '1_000', '0x10', 'NAN', 'none', 'T', ' x', 'x ',
+               '2020-01-01', '#x', 'a\\b', '/x']
+    T_TYPED = TYPED_TEXT + ['', '', ' 12', '13 ', '\t7', 'Infinity', '-inf', 'TRUE', 'False', '+5', '.5', '3.', '1E3', '1e-3', '<NA>', '#N/A', 'NULL',
+                            'NaN', '-nan', 'n/a', '00', '-0', '1.#IND']
+
+    def _typed_table(self, flavour: str):
+        """(names, kinds, rows, cells for the model): integer / float / text / boolean columns with missing cells.
+        flavour: plain | typed-text | blank | cr | sniffed | fine-float | empty"""
+        rng = self.rng
+        ncol = 1 if flavour == 'blank' else rng.randint(1, 4)
+        self._table_serial = getattr(self, '_table_serial', 0) + 1
+        # a suffix of their own keeps most tables away from what the schema cache of this process already holds
+        pool = list(self.T_NAMES) if rng.random() < 0.3 and flavour not in ('empty', 'null-bool') else [f'{n}_{self._table_serial}' for n in self.T_NAMES]
+        names = rng.sample(pool, ncol)
+        if flavour == 'sniffed':
+            names[rng.randrange(ncol)] = rng.choice(['instances', 'inputs'])
+        if flavour == 'cr' and rng.random() < 0.2:
+            names[rng.randrange(ncol)] = rng.choice(['a\rb', 'x\r'])
+        kinds = [rng.choice(['int', 'float', 'str', 'str', 'bool']) for _ in range(ncol)]
+        if flavour in ('typed-text', 'blank', 'cr') and 'str' not in kinds:
+            kinds[0] = 'str'
+        if flavour == 'fine-float' and 'float' not in kinds:
+            kinds[0] = 'float'
+        if flavour == 'null-bool' and 'bool' not in kinds:
+            kinds[0] = 'bool'
+        nrows = 0 if flavour == 'empty' else rng.randint(1, 5)
+        cols, model_cols = [], []
+        special = kinds.index('str') if 'str' in kinds else None
+        for j, kd in enumerate(kinds):
+            cells, mcells = [], []
+            whole = rng.random() < 0.6
+            for i in range(nrows):
+                if rng.random() < (0.4 if flavour == 'null-bool' else 0.12) and (kd != 'bool' or flavour == 'null-bool'):
+                    cells.append(None)
+                    mcells.append('null')
+                    continue
+                if kd == 'int':
+                    v = rng.choice([rng.randint(-1000, 1000), rng.randint(-9, 9), rng.randint(-10 ** 15 + 1, 10 ** 15 - 1) if rng.random() < 0.2 else 7])
+                    cells.append(v)
+                    mcells.append(['i', v])
+                elif kd == 'float':
+                    scale = rng.randint(11, 14) if flavour == 'fine-float' and rng.random() < 0.7 else rng.randint(0, 10)
+                    n = rng.randint(0, 10 ** rng.randint(1, min(15, scale + 4)) - 1)
+                    while scale > 0 and n % 10 == 0:
+                        n, scale = n // 10, scale - 1
+                    neg = n > 0 and rng.random() < 0.4
+                    cells.append(float(f"{'-' if neg else ''}{n}e-{scale}"))
+                    mcells.append(['f', neg, n, scale])
+                elif kd == 'bool':
+                    v = rng.random() < 0.5
+                    cells.append(v)
+                    mcells.append(['b', v])
+                else:
+                    if j == special and flavour == 'typed-text' and (whole or rng.random() < 0.5):
+                        v = rng.choice(self.T_TYPED)
+                    elif j == special and flavour == 'blank' and rng.random() < 0.5:
+                        v = rng.choice([' ', '\t', '  '])
+                    elif j == special and flavour == 'cr' and rng.random() < 0.6:
+                        v = rng.choice(['a\rb', '\r', 'x\r', 'p,\rq', 'say "\r"'])
+                    else:
+                        v = rng.choice(self.T_TEXTS)
+                    cells.append(v)
+                    mcells.append(['t', v])
+            if nrows and all(c is None for c in cells):  # an all-None column has no dsl kind
+                v = {'int': 1, 'float': 0.5, 'bool': True, 'str': 'a'}[kd]
+                cells[0], mcells[0] = v, {'int': ['i', 1], 'float': ['f', False, 5, 1], 'bool': ['b', True], 'str': ['t', 'a']}[kd]
+            cols.append(cells)
+            model_cols.append([names[j], kd, mcells])
+        rows = [[c[i] for c in cols] for i in range(nrows)]
+        return names, kinds, rows, model_cols
+
+    PAIR_OPS = {'text/csv;': 'csv', 'application/json;pandas-records as plain application/json': 'records',
+                'application/json;pandas-columns as plain application/json': 'columns'}
+    VERDICT_CAUSE = {'csv-retyped': 'csv-text-retyped', 'csv-cr': 'csv-cr-unquoted', 'csv-blank-line': 'csv-blank-line',
+                     'json-rounded': 'json-float-rounded', 'json-sniffed': 'json-columns-sniffed', 'json-null-object': 'json-null-object-column'}
+
+    @staticmethod
+    def _positional(model_cols) -> bool:
+        """every float cell is written by repr() without an exponent (the range of the model's writer)"""
+        for _, _, cells in model_cols:
+            for c in cells:
+                if isinstance(c, list) and c[0] == 'f' and c[2] != 0 and not (10 ** (c[3] - 4) <= c[2] < 10 ** (c[3] + 16)):
+                    return False
+        return True
+
+    def _typed_roundtrip(self, pairs, usable):
+        """tables of typed columns with missing cells, empty / numeric-looking / marker-looking texts, carriage returns, cells of
+        blanks, column names the JSON reader sniffs for, floats of more than ten decimals, no rows: the real round trip of every
+        usable pair against the model's verdict (Table.csvVerdict / jsonVerdict), the model's text/csv text and the oracle"""
+        flavours = ['plain'] * 5 + ['typed-text'] * 3 + ['blank', 'cr', 'sniffed', 'fine-float', 'empty', 'null-bool']
+        tables = [('plain', ['A', 'B'], ['int', 'str'], [[1, 'a'], [None, 'b']], [['A', 'int', [['i', 1], 'null']], ['B', 'str', [['t', 'a'], ['t', 'b']]]]),
+                  ('typed-text', ['B'], ['str'], [['007'], ['x']], [['B', 'str', [['t', '007'], ['t', 'x']]]])]
+        for _ in range(self.n(300, 3000)):
+            fl = self.rng.choice(flavours)
+            tables.append((fl,) + self._typed_table(fl))
+        # the JSON pairs first: a text/csv decode of the same columns would teach the schema cache what the JSON frames need (C19-F6)
+        todo = sorted([(label, ei, dec) for label, ei, dec in pairs if label in self.PAIR_OPS and usable.get(label)], key=lambda t: t[0] == 'text/csv;')
+        lines = [sexp.dumps(['table', self.PAIR_OPS[label], mcols]) for _, _, _, _, mcols in tables for label, _, _ in todo]
+        answers = iter(self.model(lines))
+        for fl, names, kinds, rows, mcols in tables:
+            for label, ei, dec in todo:
+                m = _loads(next(answers))
+                status, detail, data = self._roundtrip_once(names, kinds, rows, ei, dec)
+                self.case(('typed', label, tuple(names), tuple(map(tuple, rows))), f'typed roundtrip {fl} {self.PAIR_OPS[label]} -> model {m[1]} / real {status}',
+                          nontrivial=True)
+                witness = {'kind': 'roundtrip', 'names': names, 'kinds': kinds, 'rows': rows, 'encoder': list(self._encs[ei]), 'decoder': list(dec)}
+                case = {'names': names, 'kinds': kinds, 'rows': rows, 'pair': label}
+                if m[0] != 'true':
+                    raise fw.MachineryError(f'generated table is not well-formed for the model: {case}')
+                if self.PAIR_OPS[label] == 'csv' and self._positional(mcols) and ''.join(chr(int(c)) for c in m[2]) != data.decode():
+                    self.diverge('text/csv text written by the encoder', case, data.decode(), ''.join(chr(int(c)) for c in m[2]))
+                if status == 'differs':
+                    self.violate(f'{label}: dumps -> loads returned {detail} for columns {names} rows {rows} (encoded: {data[:120]!r})',
+                                 witness, self._rt_signature(label, detail))
+                # the model's characterisation against what happened
+                if m[1] == 'empty':
+                    if status not in ('refused', 'same'):  # 'same' when the schema cache already knows the columns
+                        self._outside('round trip of a table without rows', case, status, m[1])
+                elif m[1] == 'same':
+                    if status != 'same':
+                        self.diverge('round trip characterisation: the model says the table comes back', case, [status, detail], m[1])
+                elif status == 'same':
+                    self._outside('round trip characterisation: the model says the table does not come back', case, status, m[1])
+                elif status == 'differs' and detail.get('cause') != self.VERDICT_CAUSE[m[1]]:
+                    self._outside('round trip characterisation: cause', case, detail.get('cause'), m[1])
+
+    # ---- the schema cache of Pandas.Schema.from_frame through one process ---------------------------------------------
+    def _frame_of(self, payload: bytes, kind: str):
+        import io
+        import pandas
+        from forml.io.layout import _codec
+        return pandas.read_csv(io.StringIO(payload.decode())) if kind == 'text/csv' else _codec.Json.to_pandas(payload.decode())
+
+    def _schema_sequences(self):
+        """sequences of payloads decoded one after the other: equal column types under different names, the same names again,
+        frames without rows before and after their columns are known to the cache"""
+        import json
+        rng = self.rng
+        seqs = []
+        for s in range(self.n(60, 600)):
+            tag = f's{s}_'
+            shapes = [rng.sample(['int', 'str', 'float', 'bool', 'obj'], rng.randint(1, 3)) for _ in range(2)]
+            name_sets = [[tag + rng.choice('abcdefgh') + str(i) for i in range(3)] for _ in range(3)]
+            seq = []
+            prev = None
+            for _ in range(rng.randint(2, 6)):
+                kinds = rng.choice(shapes)
+                names = rng.choice(name_sets)[:len(kinds)]
+                if prev and len(prev[0]) > 1 and rng.random() < 0.25:  # the columns of the previous payload in another order
+                    order = rng.sample(range(len(prev[0])), len(prev[0]))
+                    kinds, names = [prev[0][i] for i in order], [prev[1][i] for i in order]
+                prev = (kinds, names)
+                nrows = rng.choice([0, 1, 2, 2, 3])
+                rows = []
+                for _ in range(nrows):
+                    rows.append([{'int': rng.randint(0, 9), 'str': rng.choice('xyz') + 'q', 'float': rng.randint(1, 9) / 4 + 0.125,
+                                  'bool': rng.random() < 0.5, 'obj': rng.choice([True, None])}[k] for k in kinds])
+                if nrows and 'obj' in kinds:  # an object column: booleans with a missing cell
+                    j = kinds.index('obj')
+                    rows[0][j] = True
+                    if nrows > 1:
+                        rows[1][j] = None
+                if rng.random() < 0.6:
+                    text = ','.join(names) + '\n' + ''.join(','.join('' if v is None else str(v) for v in r) + '\n' for r in rows)
+                    seq.append(('text/csv', text.encode(), names))
+                else:
+                    seq.append(('application/json', json.dumps([dict(zip(names, r)) for r in rows]).encode(), names if rows else []))
+            seqs.append(seq)
+        return seqs
+
+    def _decode_names(self, kind: str, payload: bytes):
+        from forml.io import layout
+        try:
+            entry = layout.get_decoder(layout.Encoding(kind)).loads(payload)
+            return ['schema', [f.name for f in entry.schema]]
+        except Exception as err:  # pylint: disable=broad-except
+            if type(err).__name__ == 'MissingError' and 'Empty frame' in str(err):
+                return 'empty-frame'
+            if isinstance(err, ValueError) and 'Value None is of unknown ETL type' in str(err):
+                return 'untypable'
+            return ['error', f'{type(err).__name__}: {err}'[:120]]
+
+    def _schema_cache(self):
+        seqs = self._schema_sequences()
+        lines, observed = [], []
+        for seq in seqs:
+            sigs, got = [], []
+            for kind, payload, names in seq:
+                try:
+                    frame = self._frame_of(payload, kind)
+                    untypable = any(str(d) == 'object' and any(v is None for v in frame[c]) for c, d in zip(frame.columns, frame.dtypes))
+                    sigs.append([[str(c) for c in frame.columns], [str(d) for d in frame.dtypes], bool(frame.empty), untypable])
+                except Exception:  # pylint: disable=broad-except
+                    sigs.append(None)
+                got.append(self._decode_names(kind, payload))
+            observed.append((sigs, got))
+            lines.append(sexp.dumps(['schemas', 'items', [s for s in sigs if s is not None]]) if all(s is not None for s in sigs) else None)
+        answers = iter(self.model([ln for ln in lines if ln is not None]))
+        for seq, (sigs, got), ln in zip(seqs, observed, lines):
+            self.case(('schema-seq', tuple((k, p) for k, p, _ in seq)), f'schema cache sequence n={len(seq)}', nontrivial=True)
+            witness = {'kind': 'schema-sequence', 'payloads': [[k, p.decode()] for k, p, _ in seq]}
+            for step, ((kind, payload, names), g) in enumerate(zip(seq, got)):
+                # oracle: the decoded entry is described by the columns of the payload it was decoded from
+                if isinstance(g, list) and g[0] == 'schema' and g[1] != list(names) and names:
+                    self.violate(f'payload #{step} of a sequence decoded in one process ({payload[:60]!r}, {kind}) came back with the fields {g[1]}, '
+                                 f'its columns are {names}', dict(witness, payloads=witness['payloads'][:step + 1]), 'roundtrip-schema-names')
+                    break
+            if ln is None:
+                continue
+            m = _loads(next(answers))
+            if m != got:
+                # which fields a decoded entry carries is the property's business; whether a frame without rows / with an untypable
+                # column is refused or served from the cache is not
+                names_differ = any(isinstance(a, list) and isinstance(b, list) and a[0] == b[0] == 'schema' and a[1] != b[1] for a, b in zip(got, m))
+                (self.diverge if names_differ else self._outside)('Pandas.Schema.from_frame over the frames of one process', witness, got, m)
+
+    # ---- the pieces of pandas.read_csv the table theorems talk about ----------------------------------------------------
+    def _pandas_fidelity(self):
+        """the tokeniser (records / fields, quotes, blank lines) and the per-column type inference of the Lean model against
+        pandas.read_csv on generated texts: a mismatch says the *model of pandas* is off — fidelity note, not a verdict on forml"""
+        import io
+        import pandas
+        rng = self.rng
+        texts = ['A,B\n1,"a\n""b"\n\n \n2,c\n""\nx"y,"z"w\n', '""\n', 'a\n \nb\n', 'a,b\n,\n', '"a",b\n']
+        for _ in range(self.n(1500, 20000)):
+            texts.append(''.join(rng.choice('ab,,"""\n\n \t') for _ in range(rng.randint(0, 12))))
+        answers = self.model([sexp.dumps(['csvread', t]) for t in texts])
+        for t, ans in zip(texts, answers):
+            m = _loads(ans)
+            try:
+                df = pandas.read_csv(io.StringIO(t), header=None, dtype=str, keep_default_na=False, na_filter=False)
+                got = [['' if v != v else v for v in row] for row in df.values.tolist()]
+            except pandas.errors.EmptyDataError:
+                got = []
+            except Exception:  # pylint: disable=broad-except
+                continue  # ragged records: pandas refuses, the model does not speak about them
+            width = max((len(r) for r in m), default=0)
+            self.case(('csvread', t), 'csv tokeniser vs pandas', nontrivial=True)
+            if [r + [''] * (width - len(r)) for r in m] != got:
+                self._outside('read_csv tokeniser', {'text': t}, got, m)
+        pool = self.T_TEXTS + self.T_TYPED + ['1', '2.5', '-3', 'True', 'false', 'inf', ' ', '1e400', '1.2.3', '--1', '1e', '.', '+', 'Nan', 'iNf', '1ee3']
+        cols = [[rng.choice(pool) for _ in range(rng.randint(1, 4))] for _ in range(self.n(800, 10000))]
+        cols = [c for c in cols if not any(ch in f for f in c for ch in ',"\n\r')]
+        answers = self.model([sexp.dumps(['infer', c]) for c in cols])
+        for c, ans in zip(cols, answers):
+            m = _loads(ans)
+            text = 'A,Z\n' + ''.join(f + ',k\n' for f in c)
+            col = pandas.read_csv(io.StringIO(text))['A']
+            kind = ('numbers' if col.dtype.kind in 'iuf' or (col.dtype == object and all(isinstance(v, int) for v in col)) else
+                    'bools' if col.dtype == bool or (col.dtype == object and all(isinstance(v, bool) or v != v for v in col)) else 'texts')
+            if all(f in _NA for f in c):
+                kind = m[0]  # nothing but missing-value markers: any reading gives a column of NaN
+            self.case(('infer', tuple(c)), f'csv column inference -> {kind}', nontrivial=True)
+            if m[0] != kind:
+                self._outside('read_csv type inference', {'fields': c}, kind, m[0])
 
     def _json_precision(self):
         """what the JSON encoders write for a float cell vs `Dec.jsonRender` (ties of the rounding are avoided: the
@@ -784,10 +1469,14 @@ class C19(fw.Check):
         for (n, k), ans in zip(cases, answers):
             value = float(f'{n}e-{k}')
             ei = rng.choice(jsons)
-            text = _codec.ENCODERS[ei].dumps(layout.Outcome(schema, [[value], [1.5]])).decode()
-            doc = json.loads(text, parse_float=F, parse_int=F)
-            cell = doc[0]['A'] if isinstance(doc, list) and isinstance(doc[0], dict) else (doc[0][0] if isinstance(doc, list) else doc['data'][0][0])
-            m = sexp.loads(ans)
+            m = _loads(ans)
+            try:
+                text = _codec.ENCODERS[ei].dumps(layout.Outcome(schema, [[value], [1.5]])).decode()
+                doc = json.loads(text, parse_float=F, parse_int=F)
+                cell = doc[0]['A'] if isinstance(doc, list) and isinstance(doc[0], dict) else (doc[0][0] if isinstance(doc, list) else doc['data'][0][0])
+            except Exception as err:  # pylint: disable=broad-except
+                self.diverge('float cell written by a JSON encoder', {'n': n, 'scale': k, 'encoder': list(self._encs[ei])}, f'{type(err).__name__}: {err}'[:120], m)
+                continue
             self.case(('jsonfloat', n, k), f'json float decimals {"<=10" if k <= 10 else ">10"}', nontrivial=True)
             if F(int(m[0]), 10 ** int(m[1])) != cell:
                 self.diverge('float cell written by a JSON encoder', {'n': n, 'scale': k, 'encoder': list(self._encs[ei])}, str(cell), m)
@@ -822,10 +1511,13 @@ class C19(fw.Check):
             want = self._impl_encoder([(e.kind, dict(e.options)) for e in accept])
             try:
                 payload = app.respond(outcome, accept, None)
-                got = next(i for i, c in enumerate(_codec.ENCODERS) if c.encoding == payload.encoding)
-                same = payload.data == _codec.ENCODERS[got].dumps(outcome)
+                got = next((i for i, c in enumerate(_codec.ENCODERS) if c.encoding == payload.encoding),
+                           f'a payload declared as {getattr(payload, "encoding", None)!r}')
+                same = isinstance(got, int) and payload.data == _codec.ENCODERS[got].dumps(outcome)
             except layout.Encoding.Unsupported:
                 got, same = None, True
+            except Exception as err:  # pylint: disable=broad-except
+                got, same = f'{type(err).__name__}: {err}'[:120], False
             self.case(('generic-respond', header), 'Generic.respond', nontrivial=True)
             if got != want or not same:
                 self.violate(f'Generic.respond for Accept {header!r} used encoder {got}, get_encoder gives {want}',
@@ -837,6 +1529,8 @@ class C19(fw.Check):
             rows = [[int(list(r)[0]), list(r)[1]] for r in decoded.entry.data.to_rows()]
         except layout.Encoding.Unsupported as err:
             rows = f'Unsupported: {err}'
+        except Exception as err:  # pylint: disable=broad-except
+            rows = f'{type(err).__name__}: {err}'[:120]
         if rows != [[1, 'x'], [2, 'y']] or request.accept != (request.payload.encoding,):
             self.violate(f'Generic.receive of a text/csv; charset=utf-8 request gave {rows}', {'kind': 'generic-receive'}, 'generic-receive')
         try:
@@ -844,6 +1538,9 @@ class C19(fw.Check):
             self.violate('Generic.receive accepted foo/bar', {'kind': 'generic-receive-unsupported'}, 'generic-receive')
         except layout.Encoding.Unsupported:
             pass
+        except Exception as err:  # pylint: disable=broad-except
+            self.violate(f'Generic.receive of a foo/bar request raised {type(err).__name__} instead of the unsupported-encoding error',
+                         {'kind': 'generic-receive-unsupported'}, 'generic-receive')
 
     # ---- the REST gateway route (provider/gateway/rest.py Apply) ------------------------------------------------
     @staticmethod
@@ -884,8 +1581,10 @@ class C19(fw.Check):
                     f'accepts only {[self._encs[j] for j in accepted]}'), 'rest-encoder-choice'
         return None
 
-    def _rest_call(self, client, ctype: str, accept: str, body: bytes):
-        r = client.post('/c19', content=body, headers={'content-type': ctype, 'accept': accept})
+    def _rest_call(self, client, ctype: typing.Optional[str], accept: typing.Optional[str], body: bytes):
+        """None = the header is not sent"""
+        headers = {k: v for k, v in (('content-type', ctype), ('accept', accept)) if v is not None}
+        r = client.post('/c19', content=body, headers=headers)
         return r.status_code, r.headers.get('content-type', '')
 
     def _rest_client(self):
@@ -900,7 +1599,27 @@ class C19(fw.Check):
             outcome = layout.Outcome(entry.schema, entry.data.to_rows())
             return layout.Response(descriptor.respond(outcome, request.accept, None), 'c19')
 
-        return testclient.TestClient(applications.Starlette(routes=[rest.Apply(handler)]), raise_server_exceptions=False)
+        client = testclient.TestClient(applications.Starlette(routes=[rest.Apply(handler)]), raise_server_exceptions=False)
+        client.headers.pop('accept', None)  # the test client's own default `Accept: */*`
+        return client
+
+    def _rest_observed(self, status: int, ctype_out: str):
+        """the route's answer in the terms of the model: ['ok', encoder index] / 'unsupported' / 'error' / ('status', n)"""
+        if status == 415:
+            return 'unsupported'
+        if status == 500:
+            return 'error'
+        if status != 200:
+            return ['status', status]
+        gk, go = self._header_encoding(ctype_out)  # starlette adds "; charset=utf-8" to text/*: extra options are ignored
+        hits = [j for j, (k, o) in enumerate(self._encs)
+                if k == gk and all(go.get(a) == b for a, b in o.items()) and (o or 'format' not in go)]
+        return ['ok', hits[0]] if len(hits) == 1 else ['content-type', ctype_out]
+
+    @staticmethod
+    def _rest_model(ans: str):
+        m = _loads(ans)
+        return ['ok', int(m[1])] if isinstance(m, list) and m[0] == 'ok' else m
 
     REST_KINDS = ['text/csv', 'text/csv', 'application/json', 'application/json', 'foo/bar', 'text/plain', 'application/xml', 'text/*']
     REST_ACCEPT = ['application/json', 'text/csv', 'text/*', '*/*', 'application/*', 'foo/bar', 'text/html', 'image/*', '*/json', 't*/c*v']
@@ -928,7 +1647,8 @@ class C19(fw.Check):
         for ctype, accept in corpus:
             cases.append((ctype, self._respec(ctype), accept, self._respec(accept)))
         cases += [self._rest_case() for _ in range(self.n(400, 1500))]
-        for ctype, cspec, accept, aspec in cases:
+        answers = self.model([sexp.dumps(['gateway', ['some', ctype], ['some', accept]]) for ctype, _, accept, _ in cases])
+        for (ctype, cspec, accept, aspec), ans in zip(cases, answers):
             best = min(range(len(cspec)), key=lambda i: (-cspec[i][2], i))
             body = self.BODIES.get(cspec[best][0], b'A\n1\n')
             status, out = self._rest_call(client, ctype, accept, body)
@@ -938,6 +1658,38 @@ class C19(fw.Check):
                 self.violate(bad[0] + f' (Content-Type {ctype!r}, Accept {accept!r})',
                              {'kind': 'rest', 'content_type': ctype, 'content_spec': self._spec_json(cspec), 'accept': accept,
                               'accept_spec': self._spec_json(aspec)}, bad[1])
+            got, want = self._rest_observed(status, out), self._rest_model(ans)
+            if got != want:
+                (self._outside if any(c in cspec[best][0] for c in '*?[') else self.diverge)(
+                    'REST route (rest.py Apply + Generic.receive/respond)', {'content_type': ctype, 'accept': accept}, got, want)
+        # defaults and the error mapping of the route, which the property does not speak about (no Accept / no Content-Type header,
+        # empty headers, a q that is not a number -> 500): compared with the model (gateway, C19_gateway_*), fidelity note only
+        rng = self.rng
+        extra = [(None, None), ('text/csv', None), ('text/csv', ''), ('text/csv', ' '), ('text/csv; charset=utf-8', None), ('', '*/*'),
+                 ('text/csv;q=x', '*/*'), ('text/csv', '*/*;q=high'), (None, 'a;q=z'), ('application/json', None), (None, '*/*')]
+        for _ in range(self.n(150, 1500)):
+            ctype, accept = self._rest_case()[0], self._rest_case()[2]
+            r = rng.random()
+            if r < 0.3:
+                accept = rng.choice([None, None, ''])
+            elif r < 0.4:
+                ctype = rng.choice([None, ''])
+            elif r < 0.7:
+                bad = rng.choice([';q=', '; q = ', ';Q=']) + rng.choice(BAD_Q)
+                if rng.random() < 0.5:
+                    accept += bad
+                else:
+                    ctype += bad
+            extra.append((ctype, accept))
+        answers = self.model([sexp.dumps(['gateway', 'none' if c is None else ['some', c], 'none' if a is None else ['some', a]]) for c, a in extra])
+        for (ctype, accept), ans in zip(extra, answers):
+            impl = self._impl_parse(ctype) if ctype is not None else ('ok', [('application/octet-stream', {})])
+            head = impl[1][0][0] if impl[0] == 'ok' and impl[1] else ''
+            status, out = self._rest_call(client, ctype, accept, self.BODIES.get(head, b'A\n1\n'))
+            self.case(('rest-default', ctype, accept), f'rest defaults/errors -> {status}', nontrivial=True)
+            got, want = self._rest_observed(status, out), self._rest_model(ans)
+            if got != want:
+                self._outside('REST route defaults / error mapping', {'content_type': ctype, 'accept': accept}, got, want)
 
     @staticmethod
     def _respec(header: str):
@@ -998,7 +1750,84 @@ class C19(fw.Check):
                             break
                 self.violate(bad[0], {'kind': 'parse', 'header': header, 'spec': self._spec_json(spec)}, bad[1])
                 break
-        self.notes.append(f'failing-input search ({reason}): {tried} headers re-examined by the oracles on the real code')
+        # tables and sequences of payloads: the oracle on the real code around the diverging cases
+        budget = {'schema': 3, 'table': 6}
+        for d in self.divergences[:200]:
+            case = d.case if isinstance(d.case, dict) else {}
+            if case.get('kind') == 'schema-sequence':
+                if budget['schema'] <= 0:
+                    continue
+                budget['schema'] -= 1
+                for i in range(len(case['payloads'])):
+                    for j in range(i + 1, len(case['payloads'])):
+                        pair = [case['payloads'][i], case['payloads'][j]]
+                        bad = self._replay_schema_sequence(pair)
+                        tried += 1
+                        if bad:
+                            self.violate(bad[0], {'kind': 'schema-sequence', 'payloads': pair}, bad[1])
+                            break
+                    else:
+                        continue
+                    break
+            elif 'rows' in case and 'pair' in case:
+                pairs = {label: (ei, dec) for label, ei, dec in self._codec_pairs()}
+                if case['pair'] not in pairs or budget['table'] <= 0:
+                    continue
+                budget['table'] -= 1
+                ei, dec = pairs[case['pair']]
+                names, kinds, rows = list(case['names']), list(case['kinds']), [list(r) for r in case['rows']]
+                status, detail, _ = self._roundtrip_once(names, kinds, rows, ei, dec)
+                tried += 1
+                if status != 'differs':
+                    continue
+                changed = True
+                while changed:  # shrink: drop rows, then columns, while the table still does not come back
+                    changed = False
+                    for i in range(len(rows)):
+                        if len(rows) > 1:
+                            r2 = rows[:i] + rows[i + 1:]
+                            st, dt, _ = self._roundtrip_once(names, kinds, r2, ei, dec)
+                            tried += 1
+                            if st == 'differs' and self._rt_signature(case['pair'], dt) == self._rt_signature(case['pair'], detail):
+                                rows, detail, changed = r2, dt, True
+                                break
+                    if not changed and len(names) > 1:
+                        for j in range(len(names)):
+                            n2, k2, r2 = names[:j] + names[j + 1:], kinds[:j] + kinds[j + 1:], [r[:j] + r[j + 1:] for r in rows]
+                            st, dt, _ = self._roundtrip_once(n2, k2, r2, ei, dec)
+                            tried += 1
+                            if st == 'differs' and self._rt_signature(case['pair'], dt) == self._rt_signature(case['pair'], detail):
+                                names, kinds, rows, detail, changed = n2, k2, r2, dt, True
+                                break
+                self.violate(f'{case["pair"]}: dumps -> loads returned {detail} for columns {names} rows {rows}',
+                             {'kind': 'roundtrip', 'names': names, 'kinds': kinds, 'rows': rows, 'encoder': list(self._encs[ei]), 'decoder': list(dec)},
+                             self._rt_signature(case['pair'], detail))
+        self.notes.append(f'failing-input search ({reason}): {tried} inputs re-examined by the oracles on the real code')
+
+    @staticmethod
+    def _replay_schema_sequence(payloads):
+        """decode the payloads one after the other in a process of their own (the schema cache is process-wide)"""
+        import json
+        import subprocess
+        import sys
+        script = ('import sys, json, warnings, logging\nwarnings.simplefilter("ignore"); logging.disable(logging.CRITICAL)\n'
+                  'from forml.io import layout\nout = []\n'
+                  'for kind, text in json.loads(sys.stdin.read()):\n'
+                  '    try:\n        out.append([f.name for f in layout.get_decoder(layout.Encoding(kind)).loads(text.encode()).schema])\n'
+                  '    except Exception as e:\n        out.append(type(e).__name__)\nprint(json.dumps(out))\n')
+        r = subprocess.run([sys.executable, '-c', script], input=json.dumps(payloads), capture_output=True, text=True, timeout=120, cwd='/tmp')
+        if r.returncode != 0:
+            return None
+        got = json.loads(r.stdout.strip().split('\n')[-1])
+        for step, ((kind, text), g) in enumerate(zip(payloads, got)):
+            if kind == 'text/csv':
+                names = text.split('\n', 1)[0].split(',')
+            else:
+                recs = json.loads(text)
+                names = list(recs[0]) if recs else None
+            if isinstance(g, list) and names and g != names:
+                return (f'payload #{step} of a sequence decoded in one process came back with the fields {g}, its columns are {names}', 'roundtrip-schema-names')
+        return None
 
     def replay_finding(self, entry):
         w = entry['witness']
@@ -1033,6 +1862,8 @@ class C19(fw.Check):
             best = min(range(len(cspec)), key=lambda i: (-cspec[i][2], i))
             status, out = self._rest_call(self._rest_client(), w['content_type'], w['accept'], self.BODIES.get(cspec[best][0], b'A\n1\n'))
             bad = self._rest_oracle(cspec, aspec, status, out)
+        elif kind == 'schema-sequence':
+            bad = self._replay_schema_sequence(w['payloads'])
         elif kind == 'roundtrip':
             ei = next((i for i, e in enumerate(self._encs) if list(e) == list(w['encoder'])), None)
             if ei is None:
